@@ -853,6 +853,25 @@ Proof.
   all: try (rewrite concat_repeat_nil; reflexivity).
 Qed.
 
+(* the two statements quoted by Props/Properties_C10.v *)
+Lemma hl_remove_statement (h : hashlin) k (f : node -> bool) : hl_inv h ->
+  (find f (hl_bucket h k) = None -> hl_remove_first bit0 h k f = (h, None)) /\
+  (forall n, find f (hl_bucket h k) = Some n ->
+     exists h', hl_remove_first bit0 h k f = (h', Some n) /\ hl_inv h' /\
+                Permutation (elements h) (n :: elements h')).
+Proof.
+  intros Hi. split; [apply hl_remove_first_none|]. intros n Hn. apply hl_remove_first_some; assumption.
+Qed.
+
+Lemma loops_exit_statement (h : hashlin) : hl_inv h ->
+  (let h1 := grow_setup h in state h1 = ST_GROW ->
+   let r := grow_loop (Z.to_nat (low_max h1)) (2 * count h1) h1 in
+   state r = ST_STABLE \/ ~ (split r + low_max r < 2 * count h1)) /\
+  (let h1 := shrink_setup bit0 h in state h1 = ST_SHRINK ->
+   let r := shrink_loop (Z.to_nat (low_max h1)) (8 * count h1) h1 in
+   state r = ST_STABLE \/ ~ (8 * count h1 < split r + low_max r)).
+Proof. intros Hi. split; [apply grow_step_fuel|apply shrink_step_fuel]; exact Hi. Qed.
+
 End HashlinProofs.
 
 (* ------------------------------------------------------------------------ *)
@@ -1287,3 +1306,602 @@ Proof.
   - destruct (e_src e =? s); [|apply IH; exact Hnd].
     destruct (mem e old); apply IH; [apply NoDup_remove_first|]; exact Hnd.
 Qed.
+
+(* notify_diff in closed form: old loses the records of source s that new also holds; the callbacks are an
+   addition for every record of s in new that old did not hold (in new's order), then a removal for every
+   record of s left in old *)
+Lemma filter_all {X} (f : X -> bool) (l : list X) : (forall x, In x l -> f x = true) -> filter f l = l.
+Proof.
+  induction l as [|x l IH]; intros H; cbn [filter]; [reflexivity|].
+  rewrite (H x (or_introl eq_refl)). f_equal. apply IH. intros y Hy. apply H. right. exact Hy.
+Qed.
+
+Lemma filter_remove_first e (Pn Po : entry -> bool) : forall old, NoDup old ->
+  Po e = false -> (forall x, x <> e -> Pn x = Po x) ->
+  filter Pn (remove_first (key_entry_cmp e) old) = filter Po old.
+Proof.
+  induction old as [|x old IH]; intros Hnd He Hx; cbn [remove_first filter]; [reflexivity|].
+  inversion Hnd as [|? ? Hni Hnd']. subst. destruct (key_entry_cmp e x) eqn:Ec.
+  - apply key_entry_cmp_eq in Ec. subst x. rewrite He. apply filter_ext_in. intros y Hy. apply Hx.
+    intros ->. contradiction.
+  - assert (Hne : x <> e) by (intros ->; rewrite key_entry_cmp_refl in Ec; discriminate).
+    cbn [filter]. rewrite (Hx x Hne). destruct (Po x); [f_equal|]; apply IH; assumption.
+Qed.
+
+Lemma mem_remove_first e x old : NoDup old -> x <> e -> mem x (remove_first (key_entry_cmp e) old) = mem x old.
+Proof.
+  intros Hnd Hne. pose proof (In_remove_first e x old Hnd) as Hiff.
+  destruct (mem x (remove_first (key_entry_cmp e) old)) eqn:E1; destruct (mem x old) eqn:E2; try reflexivity.
+  - apply mem_iff in E1. apply mem_false in E2. exfalso. apply E2. apply Hiff. exact E1.
+  - apply mem_false in E1. apply mem_iff in E2. exfalso. apply E1. apply Hiff. split; assumption.
+Qed.
+
+Lemma cmp_false_of_neq x e : x <> e -> key_entry_cmp x e = false.
+Proof. intros H. destruct (key_entry_cmp x e) eqn:E; [apply key_entry_cmp_eq in E; contradiction|reflexivity]. Qed.
+
+Lemma sp_diff_walk_char : forall l s old cbs, NoDup l -> NoDup old ->
+  sp_diff_walk l s old cbs =
+    (filter (fun x => negb ((e_src x =? s) && mem x l)) old,
+     cbs ++ map (fun e => (e, true)) (filter (fun e => (e_src e =? s) && negb (mem e old)) l)).
+Proof.
+  induction l as [|e r IH]; intros s old cbs Hl Ho; cbn [sp_diff_walk].
+  - cbn [filter map]. rewrite app_nil_r. f_equal. symmetry. apply filter_all. intros x _.
+    cbn [mem existsb]. rewrite andb_false_r. reflexivity.
+  - inversion Hl as [|? ? Her Hr]. subst.
+    destruct (Z.eqb_spec (e_src e) s) as [Hs|Hs].
+    + destruct (mem e old) eqn:Em.
+      * rewrite IH by (auto using NoDup_remove_first). f_equal.
+        -- apply filter_remove_first; [exact Ho| |].
+           ++ cbn [mem existsb]. rewrite key_entry_cmp_refl. apply Z.eqb_eq in Hs. rewrite Hs. reflexivity.
+           ++ intros x Hne. cbn [mem existsb]. rewrite (cmp_false_of_neq x e Hne). reflexivity.
+        -- f_equal. f_equal. cbn [filter]. rewrite Em. rewrite andb_false_r.
+           apply filter_ext_in. intros x Hx. rewrite mem_remove_first; [reflexivity|exact Ho|].
+           intros ->. contradiction.
+      * rewrite IH by assumption. f_equal.
+        -- apply filter_ext_in. intros x Hx. cbn [mem existsb]. rewrite cmp_false_of_neq; [reflexivity|].
+           intros ->. apply mem_false in Em. contradiction.
+        -- rewrite <- app_assoc. f_equal. cbn [filter]. rewrite Em. apply Z.eqb_eq in Hs. rewrite Hs. reflexivity.
+    + rewrite IH by assumption. f_equal.
+      * apply filter_ext. intros x. cbn [mem existsb]. destruct (key_entry_cmp x e) eqn:Ec; [|reflexivity].
+        apply key_entry_cmp_eq in Ec. subst x. apply Z.eqb_neq in Hs. rewrite Hs. reflexivity.
+      * f_equal. f_equal. cbn [filter]. apply Z.eqb_neq in Hs. rewrite Hs. reflexivity.
+Qed.
+
+Lemma sp_notify_diff_char new old s : NoDup new -> NoDup old ->
+  let old' := filter (fun x => negb ((e_src x =? s) && mem x new)) old in
+  sp_notify_diff new old s =
+    (old', map (fun e => (e, true)) (filter (fun e => (e_src e =? s) && negb (mem e old)) new) ++
+           map (fun e => (e, false)) (filter (fun e => e_src e =? s) old')).
+Proof.
+  intros Hn Ho. unfold sp_notify_diff. rewrite sp_diff_walk_char by assumption. reflexivity.
+Qed.
+
+(* ------------------------------------------------------------------------ *)
+(* Part 5: the model refines the specification; all histories                *)
+(* ------------------------------------------------------------------------ *)
+Lemma rc_dup_not_success : (SPKI_DUPLICATE_RECORD =? SPKI_SUCCESS) = false.
+Proof. reflexivity. Qed.
+Lemma rc_notfound_not_success : (SPKI_RECORD_NOT_FOUND =? SPKI_SUCCESS) = false.
+Proof. reflexivity. Qed.
+Lemma rc_success_not_notfound : (SPKI_SUCCESS =? SPKI_RECORD_NOT_FOUND) = false.
+Proof. reflexivity. Qed.
+Lemma rc_distinct :
+  SPKI_SUCCESS <> SPKI_ERROR /\ SPKI_SUCCESS <> SPKI_DUPLICATE_RECORD /\ SPKI_SUCCESS <> SPKI_RECORD_NOT_FOUND /\
+  SPKI_ERROR <> SPKI_DUPLICATE_RECORD /\ SPKI_ERROR <> SPKI_RECORD_NOT_FOUND /\
+  SPKI_DUPLICATE_RECORD <> SPKI_RECORD_NOT_FOUND.
+Proof. repeat split; discriminate. Qed.
+
+Section Refinement.
+Variable hash : Z -> Z.
+Variable bit0 : Z.
+Hypothesis bit0_nonneg : 0 <= bit0.
+Local Notation Inv := (SpkiInv hash bit0).
+
+Lemma add_refines t e rc t' c :
+  Inv t -> add_entry hash t e = (rc, t', c) -> Inv t' /\ sp_add (lst t) e = (rc, lst t', c).
+Proof.
+  intros Hinv H. unfold sp_add.
+  destruct (add_entry_spec hash bit0 bit0_nonneg t e Hinv) as [[Hin Heq]|[Hni (t2 & Heq & Hl & Hinv2)]];
+    rewrite Heq in H; injection H as <- <- <-.
+  - apply mem_iff in Hin. rewrite Hin. split; [exact Hinv|reflexivity].
+  - apply mem_false in Hni. rewrite Hni, Hl. split; [exact Hinv2|reflexivity].
+Qed.
+
+Lemma remove_refines t e rc t' c :
+  Inv t -> remove_entry hash bit0 t e = (rc, t', c) -> Inv t' /\ sp_remove (lst t) e = (rc, lst t', c).
+Proof.
+  intros Hinv H. unfold sp_remove.
+  destruct (remove_entry_spec hash bit0 bit0_nonneg t e Hinv) as [[Hni Heq]|[Hin (t2 & Heq & Hl & Hinv2)]];
+    rewrite Heq in H; injection H as <- <- <-.
+  - apply mem_false in Hni. rewrite Hni. split; [exact Hinv|reflexivity].
+  - apply mem_iff in Hin. rewrite Hin, Hl. split; [exact Hinv2|reflexivity].
+Qed.
+
+(* remove by source: contents and return code as specified; the callbacks as specified exactly when the
+   notifying variant is used *)
+Lemma src_remove_refines nb t s rc t' c :
+  Inv t -> src_remove_gen hash bit0 nb t s = (rc, t', c) ->
+  Inv t' /\ fst (sp_src_remove (lst t) s) = (rc, lst t') /\ (nb = true -> snd (sp_src_remove (lst t) s) = c) /\
+  (nb = false -> c = []).
+Proof.
+  intros Hinv H. destruct (src_remove_spec hash bit0 bit0_nonneg nb t s Hinv) as (t2 & Heq & Hl & Hinv2).
+  rewrite Heq in H. injection H as <- <- <-. unfold sp_src_remove. cbn [fst snd]. rewrite Hl.
+  split; [exact Hinv2|]. split; [reflexivity|]. split; intros ->; reflexivity.
+Qed.
+
+Lemma copy_walk_refines : forall l s dst cbs rc dst' c,
+  Inv dst -> copy_walk hash l s dst cbs = (rc, dst', c) ->
+  Inv dst' /\ sp_copy_walk l s (lst dst) cbs = (rc, lst dst', c).
+Proof.
+  induction l as [|e r IH]; intros s dst cbs rc dst' c Hinv; cbn [copy_walk sp_copy_walk].
+  - intros H. injection H as <- <- <-. split; [exact Hinv|reflexivity].
+  - destruct (negb (e_src e =? s)); [|apply IH; exact Hinv].
+    destruct (add_entry hash dst e) as [[rc1 d1] c1] eqn:Ea.
+    destruct (add_refines dst e rc1 d1 c1 Hinv Ea) as [Hinv1 Hsp]. unfold sp_add in Hsp.
+    destruct (mem e (lst dst)) eqn:Em; injection Hsp as Hrc Hl Hc; subst rc1 c1.
+    + rewrite rc_dup_not_success. cbn [negb]. intros H. injection H as <- <- <-.
+      rewrite app_nil_r, Hl. split; [exact Hinv1|reflexivity].
+    + rewrite Z.eqb_refl. cbn [negb]. intros H. apply (IH s d1 _ rc dst' c Hinv1) in H as [H1 H2].
+      split; [exact H1|]. rewrite Hl. exact H2.
+Qed.
+
+Lemma copy_refines src dst s rc dst' c :
+  Inv dst -> copy_except_socket hash src dst s = (rc, dst', c) ->
+  Inv dst' /\ sp_copy (lst src) (lst dst) s = (rc, lst dst', c).
+Proof. apply copy_walk_refines. Qed.
+
+Lemma diff_walk_refines : forall l s old cbs old' c,
+  Inv old -> diff_walk_new hash bit0 l s old cbs = (old', c) ->
+  Inv old' /\ sp_diff_walk l s (lst old) cbs = (lst old', c).
+Proof.
+  induction l as [|e r IH]; intros s old cbs old' c Hinv; cbn [diff_walk_new sp_diff_walk].
+  - intros H. injection H as <- <-. split; [exact Hinv|reflexivity].
+  - destruct (e_src e =? s); [|apply IH; exact Hinv].
+    destruct (remove_entry hash bit0 old e) as [[rc1 o1] c1] eqn:Er.
+    destruct (remove_refines old e rc1 o1 c1 Hinv Er) as [Hinv1 Hsp]. unfold sp_remove in Hsp.
+    destruct (mem e (lst old)) eqn:Em; injection Hsp as Hrc Hl Hc; subst rc1 c1.
+    + rewrite rc_success_not_notfound. intros H. apply (IH s o1 _ old' c Hinv1) in H as [H1 H2].
+      split; [exact H1|]. rewrite Hl. exact H2.
+    + rewrite Z.eqb_refl. intros H. apply (IH s o1 _ old' c Hinv1) in H as [H1 H2].
+      split; [exact H1|]. rewrite Hl. exact H2.
+Qed.
+
+Lemma notify_diff_refines new old s old' c :
+  Inv old -> notify_diff hash bit0 new old s = (old', c) ->
+  Inv old' /\ sp_notify_diff (lst new) (lst old) s = (lst old', c).
+Proof.
+  intros Hinv. unfold notify_diff, sp_notify_diff.
+  destruct (diff_walk_new hash bit0 (lst new) s old []) as [o1 c1] eqn:Ed.
+  destruct (diff_walk_refines _ _ _ _ _ _ Hinv Ed) as [Hinv1 Hsp]. rewrite Hsp.
+  intros H. injection H as <- <-. split; [exact Hinv1|reflexivity].
+Qed.
+
+(* callbacks mirror the change, operation by operation *)
+Lemma add_callbacks t e rc t' c : Inv t -> add_entry hash t e = (rc, t', c) -> replay c (lst t) = Some (lst t').
+Proof. intros Hinv H. destruct (add_refines _ _ _ _ _ Hinv H) as [_ Hs]. exact (sp_add_replay _ _ _ _ _ Hs). Qed.
+
+Lemma remove_callbacks t e rc t' c :
+  Inv t -> remove_entry hash bit0 t e = (rc, t', c) -> replay c (lst t) = Some (lst t').
+Proof. intros Hinv H. destruct (remove_refines _ _ _ _ _ Hinv H) as [_ Hs]. exact (sp_remove_replay _ _ _ _ _ Hs). Qed.
+
+Lemma copy_callbacks src dst s rc dst' c :
+  Inv dst -> copy_except_socket hash src dst s = (rc, dst', c) -> replay c (lst dst) = Some (lst dst').
+Proof. intros Hinv H. destruct (copy_refines _ _ _ _ _ _ Hinv H) as [_ Hs]. exact (sp_copy_replay _ _ _ _ _ _ Hs). Qed.
+
+Lemma src_remove_callbacks_notifying t s rc t' c :
+  Inv t -> src_remove_gen hash bit0 true t s = (rc, t', c) -> replay c (lst t) = Some (lst t').
+Proof.
+  intros Hinv H. destruct (src_remove_refines true _ _ _ _ _ Hinv H) as (_ & H1 & H2 & _).
+  specialize (H2 eq_refl). apply (sp_src_remove_replay (lst t) s rc).
+  destruct (sp_src_remove (lst t) s) as [[a b] d]. cbn [fst snd] in *. congruence.
+Qed.
+
+End Refinement.
+
+(* ---- histories over several tables ------------------------------------------- *)
+Inductive op : Type :=
+| OAdd (i : nat) (e : entry)
+| ORemove (i : nat) (e : entry)
+| OSrcRemove (i : nat) (s : Z)
+| OGetAll (i : nat) (a s : Z)
+| OSearchSki (i : nat) (s : Z)
+| OCopy (i j : nat) (s : Z)              (* spki_table_copy_except_socket(src = i, dst = j, s) *)
+| OSwap (i j : nat)
+| ONotifyDiff (i j : nat) (s : Z)        (* spki_table_notify_diff(new = i, old = j, s) *)
+| OFree (i : nat).                       (* spki_table_free + spki_table_init *)
+
+(* what a caller observes of one operation; callbacks carry the table whose update_fp is invoked *)
+Inductive obs : Type :=
+| ObMut (rc : Z) (cbs : list (nat * callback))
+| ObSrc (rc : Z) (cbs : list (nat * callback))       (* remove by source *)
+| ObBag (l : list entry)                             (* lookup by (AS, SKI): order not promised *)
+| ObList (l : list entry).                           (* lookup by SKI *)
+
+Definition tag (i : nat) (c : list callback) : list (nat * callback) := map (fun x => (i, x)) c.
+Definition upd_st {X : Type} (st : nat -> X) (i : nat) (x : X) : nat -> X :=
+  fun k => if Nat.eqb k i then x else st k.
+
+(* the two tables of copy / swap / notify_diff must be different objects (the C would self-deadlock) *)
+Definition op_ok (o : op) : Prop :=
+  match o with
+  | OCopy i j _ | OSwap i j | ONotifyDiff i j _ => i <> j
+  | _ => True
+  end.
+
+Section Histories.
+Variable hash : Z -> Z.
+Variable bit0 : Z.
+Hypothesis bit0_nonneg : 0 <= bit0.
+Local Notation Inv := (SpkiInv hash bit0).
+
+(* [nb]: does remove-by-source notify (see SpkiModel.SRC_REMOVE_NOTIFIES) *)
+Definition step (nb : bool) (o : op) (st : nat -> spki_table) : (nat -> spki_table) * obs :=
+  match o with
+  | OAdd i e => let '(rc, t', c) := add_entry hash (st i) e in (upd_st st i t', ObMut rc (tag i c))
+  | ORemove i e => let '(rc, t', c) := remove_entry hash bit0 (st i) e in (upd_st st i t', ObMut rc (tag i c))
+  | OSrcRemove i s => let '(rc, t', c) := src_remove_gen hash bit0 nb (st i) s in (upd_st st i t', ObSrc rc (tag i c))
+  | OGetAll i a s => (st, ObBag (get_all hash (st i) a s))
+  | OSearchSki i s => (st, ObList (search_by_ski (st i) s))
+  | OCopy i j s => let '(rc, d', c) := copy_except_socket hash (st i) (st j) s in (upd_st st j d', ObMut rc (tag j c))
+  | OSwap i j => let '(a', b') := swap (st i) (st j) in (upd_st (upd_st st i a') j b', ObMut SPKI_SUCCESS [])
+  | ONotifyDiff i j s => let '(o', c) := notify_diff hash bit0 (st i) (st j) s in (upd_st st j o', ObMut SPKI_SUCCESS (tag i c))
+  | OFree i => (upd_st st i (spki_init bit0), ObMut SPKI_SUCCESS [])
+  end.
+
+Fixpoint run (nb : bool) (ops : list op) (st : nat -> spki_table) : (nat -> spki_table) * list obs :=
+  match ops with
+  | [] => (st, [])
+  | o :: r => let '(st1, ob) := step nb o st in let '(st2, obs) := run nb r st1 in (st2, ob :: obs)
+  end.
+
+Definition init_state : nat -> spki_table := fun _ => spki_init bit0.
+End Histories.
+
+(* the same on the specification *)
+Definition sstep (o : op) (st : nat -> list entry) : (nat -> list entry) * obs :=
+  match o with
+  | OAdd i e => let '(rc, t', c) := sp_add (st i) e in (upd_st st i t', ObMut rc (tag i c))
+  | ORemove i e => let '(rc, t', c) := sp_remove (st i) e in (upd_st st i t', ObMut rc (tag i c))
+  | OSrcRemove i s => let '(rc, t', c) := sp_src_remove (st i) s in (upd_st st i t', ObSrc rc (tag i c))
+  | OGetAll i a s => (st, ObBag (sp_get_all (st i) a s))
+  | OSearchSki i s => (st, ObList (sp_search_by_ski (st i) s))
+  | OCopy i j s => let '(rc, d', c) := sp_copy (st i) (st j) s in (upd_st st j d', ObMut rc (tag j c))
+  | OSwap i j => (upd_st (upd_st st i (st j)) j (st i), ObMut SPKI_SUCCESS [])
+  | ONotifyDiff i j s => let '(o', c) := sp_notify_diff (st i) (st j) s in (upd_st st j o', ObMut SPKI_SUCCESS (tag i c))
+  | OFree i => (upd_st st i [], ObMut SPKI_SUCCESS [])
+  end.
+
+Fixpoint srun (ops : list op) (st : nat -> list entry) : (nat -> list entry) * list obs :=
+  match ops with
+  | [] => (st, [])
+  | o :: r => let '(st1, ob) := sstep o st in let '(st2, obs) := srun r st1 in (st2, ob :: obs)
+  end.
+
+Definition sinit : nat -> list entry := fun _ => [].
+
+(* observations agree; [strict = false] leaves the callbacks of remove-by-source out of the comparison *)
+Definition obs_rel (strict : bool) (a b : obs) : Prop :=
+  match a, b with
+  | ObMut rc c, ObMut rc' c' => rc = rc' /\ c = c'
+  | ObSrc rc c, ObSrc rc' c' => rc = rc' /\ (strict = true -> c = c')
+  | ObBag l, ObBag l' => Permutation l l'
+  | ObList l, ObList l' => l = l'
+  | _, _ => False
+  end.
+
+Lemma obs_rel_weaken strict a b : obs_rel strict a b -> obs_rel false a b.
+Proof.
+  destruct a, b; cbn [obs_rel]; try tauto. intros [H _]. split; [exact H|discriminate].
+Qed.
+
+Definition refines (strict : bool) (hash : Z -> Z) (bit0 : Z)
+  (m : (nat -> spki_table) * list obs) (s : (nat -> list entry) * list obs) : Prop :=
+  (forall i, SpkiInv hash bit0 (fst m i) /\ lst (fst m i) = fst s i) /\ Forall2 (obs_rel strict) (snd m) (snd s).
+
+Section HistoryProofs.
+Variable hash : Z -> Z.
+Variable bit0 : Z.
+Hypothesis bit0_nonneg : 0 <= bit0.
+Local Notation Inv := (SpkiInv hash bit0).
+
+Definition related (st : nat -> spki_table) (sst : nat -> list entry) : Prop :=
+  forall i, Inv (st i) /\ lst (st i) = sst i.
+
+Lemma related_upd st sst i t l : related st sst -> Inv t -> lst t = l -> related (upd_st st i t) (upd_st sst i l).
+Proof.
+  intros Hr Hi Hl k. unfold upd_st. destruct (Nat.eqb k i); [split; assumption|apply Hr].
+Qed.
+
+Lemma step_refines nb o st sst :
+  related st sst ->
+  related (fst (step hash bit0 nb o st)) (fst (sstep o sst)) /\
+  obs_rel nb (snd (step hash bit0 nb o st)) (snd (sstep o sst)).
+Proof.
+  intros Hr. destruct o as [i e|i e|i s|i a s|i s|i j s|i j|i j s|i]; cbn [step sstep].
+  - destruct (Hr i) as [Hi Hl]. rewrite <- Hl.
+    destruct (add_entry hash (st i) e) as [[rc t'] c] eqn:E.
+    destruct (add_refines hash bit0 bit0_nonneg _ _ _ _ _ Hi E) as [Hi' Hs]. rewrite Hs. cbn [fst snd obs_rel].
+    split; [apply related_upd; auto|split; reflexivity].
+  - destruct (Hr i) as [Hi Hl]. rewrite <- Hl.
+    destruct (remove_entry hash bit0 (st i) e) as [[rc t'] c] eqn:E.
+    destruct (remove_refines hash bit0 bit0_nonneg _ _ _ _ _ Hi E) as [Hi' Hs]. rewrite Hs. cbn [fst snd obs_rel].
+    split; [apply related_upd; auto|split; reflexivity].
+  - destruct (Hr i) as [Hi Hl]. rewrite <- Hl.
+    destruct (src_remove_gen hash bit0 nb (st i) s) as [[rc t'] c] eqn:E.
+    destruct (src_remove_refines hash bit0 bit0_nonneg nb _ _ _ _ _ Hi E) as (Hi' & H1 & H2 & _).
+    destruct (sp_src_remove (lst (st i)) s) as [[rc2 l2] c2]. cbn [fst snd obs_rel] in *.
+    injection H1 as -> ->.
+    split; [apply related_upd; auto|]. split; [reflexivity|]. intros Hnb. rewrite (H2 Hnb). reflexivity.
+  - destruct (Hr i) as [Hi Hl]. rewrite <- Hl. cbn [fst snd obs_rel]. split; [exact Hr|].
+    apply get_all_spec with (bit0 := bit0); assumption.
+  - destruct (Hr i) as [Hi Hl]. rewrite <- Hl. cbn [fst snd obs_rel]. split; [exact Hr|reflexivity].
+  - destruct (Hr i) as [Hi Hl]. destruct (Hr j) as [Hj Hlj]. rewrite <- Hl, <- Hlj.
+    destruct (copy_except_socket hash (st i) (st j) s) as [[rc d'] c] eqn:E.
+    destruct (copy_refines hash bit0 bit0_nonneg _ _ _ _ _ _ Hj E) as [Hj' Hs]. rewrite Hs. cbn [fst snd obs_rel].
+    split; [apply related_upd; auto|split; reflexivity].
+  - destruct (Hr i) as [Hi Hl]. destruct (Hr j) as [Hj Hlj]. unfold swap. cbn [fst snd obs_rel].
+    split; [|split; reflexivity].
+    apply related_upd; [apply related_upd; [exact Hr| |]| |]; cbn [ht lst]; try assumption.
+    + destruct Hj as [H1 H2 H3]. constructor; assumption.
+    + destruct Hi as [H1 H2 H3]. constructor; assumption.
+  - destruct (Hr i) as [Hi Hl]. destruct (Hr j) as [Hj Hlj]. rewrite <- Hl, <- Hlj.
+    destruct (notify_diff hash bit0 (st i) (st j) s) as [o' c] eqn:E.
+    destruct (notify_diff_refines hash bit0 bit0_nonneg _ _ _ _ _ Hj E) as [Hj' Hs]. rewrite Hs. cbn [fst snd obs_rel].
+    split; [apply related_upd; auto|split; reflexivity].
+  - cbn [fst snd obs_rel]. split; [|split; reflexivity].
+    apply related_upd; [exact Hr|apply spki_init_inv; exact bit0_nonneg|reflexivity].
+Qed.
+
+Lemma run_refines nb : forall ops st sst,
+  related st sst -> refines nb hash bit0 (run hash bit0 nb ops st) (srun ops sst).
+Proof.
+  induction ops as [|o r IH]; intros st sst Hr; cbn [run srun].
+  - split; [exact Hr|constructor].
+  - destruct (step_refines nb o st sst Hr) as [Hr1 Hob].
+    destruct (step hash bit0 nb o st) as [st1 ob]. destruct (sstep o sst) as [sst1 sob]. cbn [fst snd] in *.
+    specialize (IH st1 sst1 Hr1).
+    destruct (run hash bit0 nb r st1) as [st2 obs2]. destruct (srun r sst1) as [sst2 sobs2].
+    destruct IH as [H1 H2]. cbn [fst snd] in *. split; [exact H1|]. constructor; assumption.
+Qed.
+
+Lemma init_related : related (init_state bit0) sinit.
+Proof. intros i. split; [apply spki_init_inv; exact bit0_nonneg|reflexivity]. Qed.
+
+End HistoryProofs.
+
+(* ---- the specification keeps every table duplicate-free ------------------------ *)
+Lemma sstep_nodup o sst : (forall i, NoDup (sst i)) -> forall i, NoDup (fst (sstep o sst) i).
+Proof.
+  intros Hnd. destruct o as [i e|i e|i s|i a s|i s|i j s|i j|i j s|i]; cbn [sstep].
+  - destruct (sp_add (sst i) e) as [[rc l'] c] eqn:E. cbn [fst]. intros k. unfold upd_st.
+    destruct (Nat.eqb k i); [exact (sp_add_nodup _ _ _ _ _ (Hnd i) E)|apply Hnd].
+  - destruct (sp_remove (sst i) e) as [[rc l'] c] eqn:E. cbn [fst]. intros k. unfold upd_st.
+    destruct (Nat.eqb k i); [exact (sp_remove_nodup _ _ _ _ _ (Hnd i) E)|apply Hnd].
+  - unfold sp_src_remove. cbn [fst]. intros k. unfold upd_st.
+    destruct (Nat.eqb k i); [apply NoDup_filter, Hnd|apply Hnd].
+  - exact Hnd.
+  - exact Hnd.
+  - destruct (sp_copy (sst i) (sst j) s) as [[rc l'] c] eqn:E. cbn [fst]. intros k. unfold upd_st.
+    destruct (Nat.eqb k j); [exact (sp_copy_walk_nodup _ _ _ _ _ _ _ (Hnd j) E)|apply Hnd].
+  - cbn [fst]. intros k. unfold upd_st. destruct (Nat.eqb k j); [apply Hnd|]. destruct (Nat.eqb k i); apply Hnd.
+  - unfold sp_notify_diff. destruct (sp_diff_walk (sst i) s (sst j) []) as [o' c] eqn:E. cbn [fst]. intros k. unfold upd_st.
+    destruct (Nat.eqb k j); [exact (sp_diff_walk_nodup _ _ _ _ _ _ (Hnd j) E)|apply Hnd].
+  - cbn [fst]. intros k. unfold upd_st. destruct (Nat.eqb k i); [constructor|apply Hnd].
+Qed.
+
+Lemma srun_nodup : forall ops sst, (forall i, NoDup (sst i)) -> forall i, NoDup (fst (srun ops sst) i).
+Proof.
+  induction ops as [|o r IH]; intros sst Hnd; cbn [srun]; [exact Hnd|].
+  pose proof (sstep_nodup o sst Hnd) as H1. destruct (sstep o sst) as [sst1 ob]. cbn [fst] in H1.
+  specialize (IH sst1 H1). destruct (srun r sst1) as [sst2 obs2]. exact IH.
+Qed.
+
+(* ---- the property, in full, and what holds of the code as it is ------------------ *)
+(* C10 in full: on every history, every observation (return codes, lookup results, and the callback
+   stream of every operation INCLUDING remove-by-source) is the one of the set specification *)
+Definition C10_full : Prop :=
+  forall (hash : Z -> Z) (bit0 : Z), 0 <= bit0 -> forall ops : list op, Forall op_ok ops ->
+    refines true hash bit0 (run hash bit0 SRC_REMOVE_NOTIFIES ops (init_state bit0)) (srun ops sinit).
+
+Lemma full_for_notifying_model (hash : Z -> Z) (bit0 : Z) : 0 <= bit0 -> forall ops : list op, Forall op_ok ops ->
+  refines true hash bit0 (run hash bit0 true ops (init_state bit0)) (srun ops sinit).
+Proof. intros Hb ops _. apply run_refines; [exact Hb|apply init_related; exact Hb]. Qed.
+
+Lemma full_of_fix : SRC_REMOVE_NOTIFIES = true -> C10_full.
+Proof. intros E hash bit0 Hb ops Hok. rewrite E. apply full_for_notifying_model; assumption. Qed.
+
+Lemma Forall2_weaken {X Y : Type} (R R' : X -> Y -> Prop) l l' :
+  (forall a b, R a b -> R' a b) -> Forall2 R l l' -> Forall2 R' l l'.
+Proof. intros HR H. induction H; constructor; auto. Qed.
+
+Lemma refines_all_histories (hash : Z -> Z) (bit0 : Z) : 0 <= bit0 -> forall ops : list op, Forall op_ok ops ->
+  refines false hash bit0 (run hash bit0 SRC_REMOVE_NOTIFIES ops (init_state bit0)) (srun ops sinit).
+Proof.
+  intros Hb ops _. destruct (run_refines hash bit0 Hb SRC_REMOVE_NOTIFIES ops _ _ (init_related hash bit0 Hb)) as [H1 H2].
+  split; [exact H1|]. eapply Forall2_weaken; [|exact H2]. intros a b. apply obs_rel_weaken.
+Qed.
+
+Lemma invariant_all_histories (hash : Z -> Z) (bit0 : Z) : 0 <= bit0 -> forall nb (ops : list op) i,
+  SpkiInv hash bit0 (fst (run hash bit0 nb ops (init_state bit0)) i).
+Proof.
+  intros Hb nb ops i. destruct (run_refines hash bit0 Hb nb ops _ _ (init_related hash bit0 Hb)) as [H1 _].
+  apply H1.
+Qed.
+
+Lemma spec_is_set : forall (ops : list op) i, NoDup (fst (srun ops sinit) i).
+Proof. intros ops. apply srun_nodup. intros i. constructor. Qed.
+
+(* the witness: one record of source 1 is added, then source 1 is removed; the specification
+   reports the removal, the code as it is does not *)
+Definition witness_entry : entry := mkE 4071535807 0 3923507919 1.
+Definition witness_ops : list op := [OAdd 0 witness_entry; OSrcRemove 0 1].
+
+Lemma refuted_when_silent : SRC_REMOVE_NOTIFIES = false -> ~ C10_full.
+Proof.
+  intros E H. specialize (H (fun a => a) 6 ltac:(lia) witness_ops ltac:(repeat constructor)).
+  destruct H as [_ H]. rewrite E in H.
+  assert (Hm : snd (run (fun a => a) 6 false witness_ops (init_state 6)) =
+               [ObMut SPKI_SUCCESS [(0%nat, (witness_entry, true))]; ObSrc SPKI_SUCCESS []]) by (vm_compute; reflexivity).
+  assert (Hs : snd (srun witness_ops sinit) =
+               [ObMut SPKI_SUCCESS [(0%nat, (witness_entry, true))]; ObSrc SPKI_SUCCESS [(0%nat, (witness_entry, false))]])
+    by (vm_compute; reflexivity).
+  rewrite Hm, Hs in H. inversion H as [|? ? ? ? _ H2]. subst. inversion H2 as [|? ? ? ? H3 _]. subst.
+  cbn [obs_rel] in H3. destruct H3 as [_ H3]. specialize (H3 eq_refl). discriminate.
+Qed.
+
+(* the constants the executed model takes from the code satisfy the hypotheses of the theorems *)
+Lemma code_constants :
+  0 <= c_TOMMY_HASHLIN_BIT /\
+  In ("SPKI_SUCCESS"%string, SPKI_SUCCESS) enum_spki_rtvals /\ In ("SPKI_ERROR"%string, SPKI_ERROR) enum_spki_rtvals /\
+  In ("SPKI_DUPLICATE_RECORD"%string, SPKI_DUPLICATE_RECORD) enum_spki_rtvals /\
+  In ("SPKI_RECORD_NOT_FOUND"%string, SPKI_RECORD_NOT_FOUND) enum_spki_rtvals /\
+  NoDup (map snd enum_spki_rtvals).
+Proof.
+  split; [vm_compute; discriminate|]. unfold SPKI_SUCCESS, SPKI_ERROR, SPKI_DUPLICATE_RECORD, SPKI_RECORD_NOT_FOUND.
+  repeat split; try (cbn; tauto).
+  vm_compute. repeat constructor; cbn; intuition discriminate.
+Qed.
+
+(* ---- per-operation statements in the form quoted by Props/Properties_C10.v --------- *)
+Section Statements.
+Variable hash : Z -> Z.
+Variable bit0 : Z.
+Hypothesis bit0_nonneg : 0 <= bit0.
+Local Notation Inv := (SpkiInv hash bit0).
+
+Lemma remove_statement t e : Inv t ->
+  (~ In e (contents t) /\ remove_entry hash bit0 t e = (SPKI_RECORD_NOT_FOUND, t, [])) \/
+  (In e (contents t) /\ exists t', remove_entry hash bit0 t e = (SPKI_SUCCESS, t', [(e, false)]) /\
+     contents t' = remove_first (key_entry_cmp e) (contents t) /\
+     (forall x, In x (contents t') <-> In x (contents t) /\ x <> e) /\ Inv t').
+Proof.
+  intros Hinv. destruct (remove_entry_spec hash bit0 bit0_nonneg t e Hinv) as [H|[Hin (t' & H1 & H2 & H3)]]; [left; exact H|].
+  right. split; [exact Hin|]. exists t'. split; [exact H1|]. split; [exact H2|]. split; [|exact H3].
+  intros x. unfold contents. rewrite H2. apply In_remove_first. exact (si_nodup _ _ _ Hinv).
+Qed.
+
+Lemma src_remove_statement nb t s : Inv t ->
+  exists t', src_remove_gen hash bit0 nb t s =
+               (SPKI_SUCCESS, t', if nb then map (fun e => (e, false)) (filter (fun e => e_src e =? s) (contents t)) else []) /\
+             contents t' = filter (fun e => negb (e_src e =? s)) (contents t) /\
+             (forall x, In x (contents t') <-> In x (contents t) /\ e_src x <> s) /\ Inv t'.
+Proof.
+  intros Hinv. destruct (src_remove_spec hash bit0 bit0_nonneg nb t s Hinv) as (t' & H1 & H2 & H3).
+  exists t'. split; [exact H1|]. split; [exact H2|]. split; [|exact H3].
+  intros x. unfold contents. rewrite H2, filter_In, negb_true_iff, Z.eqb_neq. reflexivity.
+Qed.
+
+Lemma copy_statement src dst s rc dst' c : Inv src -> Inv dst ->
+  copy_except_socket hash src dst s = (rc, dst', c) ->
+  Inv dst' /\ sp_copy (contents src) (contents dst) s = (rc, contents dst', c) /\
+  ((forall e, In e (contents src) -> e_src e <> s -> ~ In e (contents dst)) ->
+   rc = SPKI_SUCCESS /\ contents dst' = contents dst ++ filter (fun e => negb (e_src e =? s)) (contents src) /\
+   c = map (fun e => (e, true)) (filter (fun e => negb (e_src e =? s)) (contents src))).
+Proof.
+  intros Hs Hd H. destruct (copy_refines hash bit0 bit0_nonneg _ _ _ _ _ _ Hd H) as [H1 H2].
+  split; [exact H1|]. split; [exact H2|]. intros Hfresh. unfold sp_copy, contents in *.
+  rewrite (sp_copy_walk_total (lst src) s (lst dst) [] (si_nodup _ _ _ Hs) Hfresh) in H2.
+  injection H2 as <- <- <-. repeat split; reflexivity.
+Qed.
+
+Lemma swap_statement a b : Inv a -> Inv b ->
+  Inv (fst (swap a b)) /\ Inv (snd (swap a b)) /\
+  contents (fst (swap a b)) = contents b /\ contents (snd (swap a b)) = contents a.
+Proof.
+  intros [A1 A2 A3] [B1 B2 B3]. unfold swap. cbn [fst snd contents lst].
+  split; [constructor; assumption|]. split; [constructor; assumption|]. split; reflexivity.
+Qed.
+
+Lemma notify_diff_statement new old s old' c : Inv new -> Inv old ->
+  notify_diff hash bit0 new old s = (old', c) ->
+  Inv old' /\
+  contents old' = filter (fun x => negb ((e_src x =? s) && mem x (contents new))) (contents old) /\
+  c = map (fun e => (e, true)) (filter (fun e => (e_src e =? s) && negb (mem e (contents old))) (contents new)) ++
+      map (fun e => (e, false)) (filter (fun e => e_src e =? s) (contents old')).
+Proof.
+  intros Hn Ho H. destruct (notify_diff_refines hash bit0 bit0_nonneg _ _ _ _ _ Ho H) as [H1 H2].
+  split; [exact H1|]. unfold contents.
+  rewrite (sp_notify_diff_char (lst new) (lst old) s (si_nodup _ _ _ Hn) (si_nodup _ _ _ Ho)) in H2.
+  cbv zeta in H2. injection H2 as H3 H4. rewrite <- H3. split; [reflexivity|]. rewrite <- H4. reflexivity.
+Qed.
+
+Lemma callbacks_statement :
+  (forall t e rc t' c, Inv t -> add_entry hash t e = (rc, t', c) -> replay c (contents t) = Some (contents t')) /\
+  (forall t e rc t' c, Inv t -> remove_entry hash bit0 t e = (rc, t', c) -> replay c (contents t) = Some (contents t')) /\
+  (forall src dst s rc dst' c, Inv dst -> copy_except_socket hash src dst s = (rc, dst', c) ->
+     replay c (contents dst) = Some (contents dst')) /\
+  (forall t s rc t' c, Inv t -> src_remove_gen hash bit0 true t s = (rc, t', c) ->
+     replay c (contents t) = Some (contents t')).
+Proof.
+  split; [|split; [|split]].
+  - intros. eapply add_callbacks; eassumption.
+  - intros. eapply remove_callbacks; eassumption.
+  - intros. eapply copy_callbacks; eassumption.
+  - intros. eapply src_remove_callbacks_notifying; eassumption.
+Qed.
+
+End Statements.
+
+(* ---- non-vacuity: concrete histories with the hash function and initial size of the code ----- *)
+Definition ex_hash (a : Z) : Z := match tommy_inthash_u32_gen a with Some v => v | None => 0 end.
+Definition ex_bit0 : Z := c_TOMMY_HASHLIN_BIT.
+Definition ex_key (i : nat) : entry := mkE (Z.of_nat i) (Z.of_nat (i mod 3)) 7 (Z.of_nat (i mod 2)).
+Definition ex_adds (n : nat) : list op := map (fun i => OAdd 0 (ex_key i)) (seq 0 n).
+Definition ex_removes (from n : nat) : list op := map (fun i => ORemove 0 (ex_key i)) (seq from n).
+Definition ex_shape (ops : list op) : Z * Z * Z * Z :=
+  let h := ht (fst (run ex_hash ex_bit0 false ops (init_state ex_bit0)) 0%nat) in
+  (bucket_bit h, low_max h, split h, state h).
+
+(* 70 insertions cross two grow thresholds; removing 39 of them turns the second grow, still in progress,
+   into a shrink; further removals complete it and start and complete the next one; from the middle of a
+   shrink, 55 insertions turn it back into a grow that completes within that insertion, and the next
+   insertion starts the following grow *)
+Example ex_resize_steps :
+  ex_shape (ex_adds 32) = (6, 64, 0, ST_STABLE) /\
+  ex_shape (ex_adds 33) = (7, 64, 2, ST_GROW) /\
+  ex_shape (ex_adds 70) = (8, 128, 12, ST_GROW) /\
+  ex_shape (ex_adds 70 ++ ex_removes 0 39) = (8, 128, 12, ST_SHRINK) /\
+  ex_shape (ex_adds 70 ++ ex_removes 0 55) = (7, 64, 56, ST_SHRINK) /\
+  ex_shape (ex_adds 70 ++ ex_removes 0 60) = (7, 64, 16, ST_SHRINK) /\
+  ex_shape (ex_adds 70 ++ ex_removes 0 62) = (6, 64, 0, ST_STABLE) /\
+  ex_shape (ex_adds 70 ++ ex_removes 0 60 ++ map (fun i => OAdd 0 (ex_key i)) (seq 100 54)) = (7, 64, 16, ST_SHRINK) /\
+  ex_shape (ex_adds 70 ++ ex_removes 0 60 ++ map (fun i => OAdd 0 (ex_key i)) (seq 100 55)) = (7, 128, 0, ST_STABLE) /\
+  ex_shape (ex_adds 70 ++ ex_removes 0 60 ++ map (fun i => OAdd 0 (ex_key i)) (seq 100 56)) = (8, 128, 4, ST_GROW).
+Proof. vm_compute. repeat split; reflexivity. Qed.
+
+(* the invariant is about non-trivial tables: 70 records in 140 buckets, mid-grow *)
+Example ex_invariant_nontrivial :
+  let t := fst (run ex_hash ex_bit0 false (ex_adds 70) (init_state ex_bit0)) 0%nat in
+  SpkiInv ex_hash ex_bit0 t /\ length (lst t) = 70%nat /\ length (buckets (ht t)) = 140%nat /\ state (ht t) = ST_GROW.
+Proof.
+  split; [apply invariant_all_histories; vm_compute; discriminate|]. vm_compute. repeat split; reflexivity.
+Qed.
+
+(* AS 2 and AS 64 share the initial bucket under tommy_inthash_u32 (equal low 6 bits), and the lookup
+   still separates them; duplicates and unknown removals are reported and change nothing *)
+Example ex_collision_lookup :
+  Z.land (ex_hash 2) 63 = Z.land (ex_hash 64) 63 /\
+  let ops := [OAdd 0 (mkE 2 5 1 1); OAdd 0 (mkE 64 5 1 1); OAdd 0 (mkE 2 5 2 2); OAdd 0 (mkE 2 6 1 1);
+              OAdd 0 (mkE 2 5 1 1); ORemove 0 (mkE 2 5 1 3);
+              OGetAll 0 2 5; OGetAll 0 64 5; OSearchSki 0 5] in
+  snd (run ex_hash ex_bit0 false ops (init_state ex_bit0)) =
+    [ObMut SPKI_SUCCESS [(0%nat, (mkE 2 5 1 1, true))]; ObMut SPKI_SUCCESS [(0%nat, (mkE 64 5 1 1, true))];
+     ObMut SPKI_SUCCESS [(0%nat, (mkE 2 5 2 2, true))]; ObMut SPKI_SUCCESS [(0%nat, (mkE 2 6 1 1, true))];
+     ObMut SPKI_DUPLICATE_RECORD []; ObMut SPKI_RECORD_NOT_FOUND [];
+     ObBag [mkE 2 5 1 1; mkE 2 5 2 2]; ObBag [mkE 64 5 1 1];
+     ObList [mkE 2 5 1 1; mkE 64 5 1 1; mkE 2 5 2 2]].
+Proof. vm_compute. split; reflexivity. Qed.
+
+(* copy / swap / notify_diff as rtr_sync uses them *)
+Example ex_sync :
+  let ops := [OAdd 0 (mkE 1 1 1 1); OAdd 0 (mkE 2 1 1 2); OAdd 0 (mkE 3 1 1 1);
+              OCopy 0 1 1; OAdd 1 (mkE 3 1 1 1); OAdd 1 (mkE 4 1 1 1); OSwap 0 1; ONotifyDiff 0 1 1; OSearchSki 0 1; OSearchSki 1 1] in
+  snd (run ex_hash ex_bit0 false ops (init_state ex_bit0)) =
+    [ObMut SPKI_SUCCESS [(0%nat, (mkE 1 1 1 1, true))]; ObMut SPKI_SUCCESS [(0%nat, (mkE 2 1 1 2, true))];
+     ObMut SPKI_SUCCESS [(0%nat, (mkE 3 1 1 1, true))];
+     ObMut SPKI_SUCCESS [(1%nat, (mkE 2 1 1 2, true))];
+     ObMut SPKI_SUCCESS [(1%nat, (mkE 3 1 1 1, true))]; ObMut SPKI_SUCCESS [(1%nat, (mkE 4 1 1 1, true))];
+     ObMut SPKI_SUCCESS [];
+     ObMut SPKI_SUCCESS [(0%nat, (mkE 4 1 1 1, true)); (0%nat, (mkE 1 1 1 1, false))];
+     ObList [mkE 2 1 1 2; mkE 3 1 1 1; mkE 4 1 1 1]; ObList [mkE 1 1 1 1; mkE 2 1 1 2]].
+Proof. vm_compute. reflexivity. Qed.
